@@ -190,6 +190,18 @@ def all_user_columns(ctx):
     return [n for (n, _, _) in schema(ctx)['tables']['user_dt']]
 
 
+def shared_raw_members(ctx):
+    """Every column whose loader reads a raw column that another column's loader reads too (each is also requested alone)."""
+    t = schema(ctx)
+    user = [n for (n, _, _) in t['tables']['user_dt']]
+    users = {}
+    for c in t['cols']:
+        if c in user:
+            for r in set(t['deps'][c]['raw']):
+                users.setdefault(r, []).append(c)
+    return sorted({c for cs in users.values() if len(cs) > 1 for c in cs})
+
+
 def shared_raw_pairs(ctx, quick):
     """Ordered requests [a, b] and [b, a] of two columns whose loaders read a common raw column (r100 and the radii /
     sigmar / rvcirc_max compressed relative to it; sigmav3d and the principal, radial and tangential dispersions; the three
@@ -207,6 +219,13 @@ def shared_raw_pairs(ctx, quick):
             continue
         owner = r if r in cs else cs[0]
         others = [c for c in cs if c != owner]
+        if len(cs) <= 3:
+            # small groups (the three eigenvectors of one code, pos/vel interpolation inputs): every ordered pair
+            for a in cs:
+                for b in cs:
+                    if a != b:
+                        out.append([a, b])
+            continue
         if quick:
             others = others[:1] + others[-1:] if len(others) > 1 else others
         for c in others:
